@@ -479,10 +479,16 @@ class Reach:
                 c_else = self.walk(st.orelse, c_body, body_env) if st.orelse else c_body
                 out = OR(c_else, *c_out)
                 # after the try: only bindings from before that were not rebound
-                rebound = carried | assigned_names(st.orelse)
-                for h in st.handlers:
-                    rebound |= assigned_names(h.body)
-                self.unbind_all(env, rebound)
+                if all(c is False for c in c_out):
+                    # every handler leaves (raise/return/exit): after the try only the
+                    # body's bindings can be live
+                    env.clear()
+                    env.update(body_env)
+                else:
+                    rebound = carried | assigned_names(st.orelse)
+                    for h in st.handlers:
+                        rebound |= assigned_names(h.body)
+                    self.unbind_all(env, rebound)
                 if st.finalbody:
                     out = self.walk(st.finalbody, out, env)
                 cond = out
